@@ -10,10 +10,10 @@ from vlib import *
 import gen_actors as ga
 
 STATE_FIELDS = {
-    "C06": ["enabled", "trans", "init", "next_steps", "canonical_choices"],
+    "C06": ["enabled", "trans", "init", "next_steps", "canonical_choices", "owned_calls"],
     "C07": ["trans", "init", "net_len", "iter_deliv", "iter_all", "canonical_net"],
     "C09": ["enabled", "trans", "crash_budget"],
-    "C15": ["enabled", "trans", "init", "next_steps"],
+    "C15": ["enabled", "trans", "init", "next_steps", "owned_calls"],
     "C04": ["canonical_net", "canonical_choices"],
 }
 SYS_FIELDS = {
